@@ -16,12 +16,12 @@ DEFAULT_SEED = 20260923
 
 RUNS = {
     # property: (quick runs, thorough runs)
-    "C01": (768, 12288),
-    "C02": (640, 10240),
-    "C04": (512, 8192),
-    "C05": (640, 10240),
-    "C06": (768, 12288),
-    "C08": (1024, 16384),
+    "C01": (768, 6144),
+    "C02": (640, 5120),
+    "C04": (512, 4096),
+    "C05": (640, 5120),
+    "C06": (768, 6144),
+    "C08": (1024, 8192),
 }
 WALL_CAP = {"quick": 1200, "thorough": 7200}
 TECHNIQUE = "deterministic simulation: seeded schedule/fault search vs reference model"
